@@ -269,7 +269,8 @@ def _vine_replay_uncached(kind, vt, d):
                             v.fit(X0, truncated=1)
                         v.fit(X, truncated=d)
                         dd = v.to_dict()
-                        outs.append((repr(dd), float(v.get_likelihood(u))))
+                        v.set_random_state(11)
+                        outs.append((repr(dd), float(v.get_likelihood(u)), repr(np.round(v.sample(4).to_numpy(), 9).tolist())))
                 if kind == 'undef' and repr(outs[0]) != repr(outs[1]):
                     a, b = outs[0][0], outs[1][0]
                     i = next((k for k in range(min(len(a), len(b))) if a[k] != b[k]), 0)
@@ -384,6 +385,13 @@ def build_vines(chk):
                         m2 = vine.fit_vine(I, c, d, vt, truncated=d, model=m2)
                         c.out['dict2'] = I.call_method(m2, 'to_dict', [])
                         try:
+                            State.rng = G0
+                            c.out['row'] = I.call_method(m, '_sample_row', [])
+                            State.rng = G0
+                            c.out['row2'] = I.call_method(m2, '_sample_row', [])
+                        except engine.paths.Unsupported as e:
+                            c.out['row2'] = 'unsupported: %s' % str(e)[:120]
+                        try:
                             c.out['lik2'] = I.call_method(m2, 'get_likelihood', [Arr2([Lane(x, 1) for x in uq], 1)])
                         except engine.paths.Unsupported as e:
                             c.out['lik2'] = 'unsupported: %s' % str(e)[:120]
@@ -427,6 +435,15 @@ def build_vines(chk):
                                    free_ufs_ok=True, replay=vine_replay('refit', vt, d),
                                    clause='after an earlier fit (and a query) on another table, fit(X) gives the same to_dict() as '
                                           'fit(X) on a fresh vine%s' % (' [%s]' % diff if diff else '')))
+                        if isinstance(st.get('row2'), str) or 'row' not in st:
+                            chk.undecided.append(('C19.%s.same_as_fresh.sample_row.%d' % (tag, k), 'executor', str(st.get('row2'))))
+                        else:
+                            goal, diff = vine.same_tree(st['row'], st['row2'])
+                            chk.add(Ob('C19.%s.same_as_fresh.sample_row.%d' % (tag, k), r.pc, goal, function=VINE + '.fit',
+                                       free_ufs_ok=True, replay=vine_replay('refit', vt, d),
+                                       clause='... and the same sampled row under the same generator state (marginal quantile '
+                                              'functions, pair copulas and traversal of the refitted vine are those of a fresh fit)%s'
+                                              % (' [%s]' % diff if diff else '')))
                         a, b = st['lik'], st['lik2']
                         if isinstance(b, str):
                             chk.undecided.append(('C19.%s.same_as_fresh.get_likelihood.%d' % (tag, k), 'executor', b))
